@@ -852,6 +852,23 @@ def walk(e):
                     yield from walk(y)
 
 
+def predicate_fn(P, pc, depth=0):
+    """the in-crate function that decides a predicate argument: a closure, a function reference, or a closure/function that
+    only forwards its parameter to another in-crate function (`|a| a.is_self()`)"""
+    if pc[0] in ('closure', 'fnref') and pc[1] in P.fns:
+        pf = P.fns[pc[1]]
+    else:
+        return None
+    ex = pf.exits()
+    if depth < 4 and len(ex) == 1 and not pf.switches():
+        e = strip(ex[0]['expr'])
+        if e[0] == 'call' and e[1] in P.fns and len(e[2]) == 1:
+            inner = predicate_fn(P, ('fnref', e[1]), depth + 1)
+            if inner is not None:
+                return inner
+    return pf
+
+
 def calls_in(e):
     return [x for x in walk(e) if isinstance(x, tuple) and x and x[0] == 'call']
 
@@ -977,6 +994,109 @@ def expand(fn, e, depth=0, keep=None):
         else:
             out.append(x)
     return tuple(out)
+
+
+ITER_FN = 'std::iter::Iterator::'
+
+
+def _call(path, args):
+    return ('call', path, list(args), path, path)
+
+
+def loop_built(fn, l):
+    """A Vec local that is built by `let mut v = Vec::new()/with_capacity(..); for x in SRC { ..; v.push(E); }` is the sequence
+    SRC.map(|x| E).collect(): returns dict(source=iterator expression, elem=E, push=block, loop=(h, body, latches), filtered=bool)
+    when local `l` has exactly this shape (one push site, inside exactly one loop driven by Iterator::next, on every trip that
+    is not an early `continue`; the vector is not otherwise written), else None"""
+    memo = fn.__dict__.setdefault('_loop_built', {})
+    if l in memo:
+        return memo[l]
+    memo[l] = None
+    if not re.match(r'^std::vec::Vec<', fn.local_ty(l)):
+        return None
+    ds = fn.defs().get(l, [])
+    if len(ds) != 1:
+        return None
+    init = fn.expr_of_def(ds[0])
+    if not (init[0] == 'call' and re.search(r'Vec::<T>::(new|with_capacity)$|Vec::<T, A>::(new|with_capacity)', init[1])):
+        return None
+    writes = []
+    for c in fn.calls():
+        if not c['term']['args']:
+            continue
+        a0 = strip(fn.expr_of_operand(c['term']['args'][0]))
+        if a0 == ('var', l, fn.names.get(l, '_%d' % l)) or (a0[0] == 'var' and a0[1] == l):
+            p = c['path'] or ''
+            if re.search(r'Vec::<T, A>::(len|is_empty|iter|as_slice|capacity|last|first|get|contains)$|::deref$|::clone$|::into_iter$|IntoIterator|::as_ref$|::borrow$', p):
+                continue
+            writes.append(c)
+    pushes = [c for c in writes if c['path'].endswith('Vec::<T, A>::push')]
+    if len(pushes) != 1 or len(writes) != 1:
+        return None
+    pb = pushes[0]['block']
+    from_loops = [L for L in fn.loops() if pb in L[1]]
+    if len(from_loops) != 1:
+        return None
+    h, body, latches = from_loops[0]
+    drv = None
+    for bi in sorted(body):
+        t = fn.term(bi)
+        if t['k'] == 'Call' and t.get('callee') and t['callee']['path'].endswith('Iterator::next'):
+            if drv is not None:
+                return None
+            drv = (bi, t)
+    if drv is None:
+        return None
+    it = expand(fn, fn.expr_of_operand(drv[1]['args'][0]))
+    it = strip(it)
+    # `for x in <expr>` lowers to IntoIterator::into_iter(<expr>)
+    if it[0] == 'call' and it[1].endswith('into_iter') and it[2]:
+        inner = strip(it[2][0])
+        sty = drv[1]['callee'].get('self_ty') or ''
+        if inner[0] == 'call' and (inner[3].startswith(ITER_FN) or re.search(r'::(iter|iter_mut|into_iter|values|keys|chars|lines|enumerate)$', inner[1])):
+            it = inner
+        elif re.match(r"^std::slice::Iter<", sty):
+            it = _call('core::slice::<impl [T]>::iter', [inner])
+        elif re.match(r"^std::vec::IntoIter<", sty):
+            it = _call('std::iter::IntoIterator::into_iter', [inner])
+    # does every trip push?  a trip may skip the push (continue) -> filtered
+    stack, seen, skipping = [s_ for s_ in fn.succ(h) if s_ in body and s_ != pb], set(), False
+    while stack:
+        x = stack.pop()
+        if x == h:
+            skipping = True
+            break
+        if x in seen or x == pb:
+            continue
+        seen.add(x)
+        stack.extend(s_ for s_ in fn.succ(x) if s_ in body and s_ != pb)
+    # exactly one push per trip: the push block cannot reach itself without passing the header
+    stack, seen = [s_ for s_ in fn.succ(pb) if s_ in body], set()
+    while stack:
+        x = stack.pop()
+        if x == pb:
+            return None
+        if x in seen or x == h:
+            continue
+        seen.add(x)
+        stack.extend(s_ for s_ in fn.succ(x) if s_ in body)
+    elem = fn.expr_of_operand(pushes[0]['term']['args'][1])
+    memo[l] = dict(source=it, elem=elem, push=pb, loop=(h, body, latches), filtered=skipping, driver=drv[0], init=init)
+    return memo[l]
+
+
+def seq_chain(fn, e):
+    """`e` with a loop-built vector replaced by the equivalent iterator chain collect(map(SRC, loop-body)) [filter when a trip
+    can skip the push]; other expressions unchanged"""
+    e0 = strip(e)
+    if e0[0] == 'var':
+        lb = loop_built(fn, e0[1])
+        if lb:
+            src = lb['source']
+            if lb['filtered']:
+                src = _call(ITER_FN + 'filter', [src, ('loopcond', lb['push'])])
+            return _call(ITER_FN + 'collect', [_call(ITER_FN + 'map', [src, ('loopbody', lb['elem'])])])
+    return e
 
 
 def MAPM(methods):
